@@ -129,11 +129,12 @@ def gen_cases(run):
     n_main = 420 if quick else 4200
     n_lazy = 60 if quick else 600
     n_temp = 15 if quick else 100
+    n_frag = 150 if quick else 1500
     feats = collections.Counter()
-    for i in range(n_main + n_lazy + n_temp):
-        stream = 'main' if i < n_main else 'lazy' if i < n_main + n_lazy else 'temp'
+    for i in range(n_main + n_lazy + n_temp + n_frag):
+        stream = 'main' if i < n_main else 'lazy' if i < n_main + n_lazy else 'temp' if i < n_main + n_lazy + n_temp else 'frag'
         g = G.Gen(rng, size=rng.randint(2, 9), depth=rng.randint(1, 3),
-                  lazy=0.3 if stream == 'lazy' else 0.0, temp_names=(stream == 'temp'),
+                  lazy=0.3 if stream == 'lazy' else 0.0, temp_names=(stream == 'temp'), frag=(stream == 'frag'),
                   shallow_bias=rng.choice([0.2, 0.6, 0.95]), walrus=rng.choice([0.0, 0.06, 0.15]),
                   raising=rng.choice([0.0, 0.05, 0.15]))
         src = g.program()
@@ -275,6 +276,8 @@ def check(run, only_cases=None):
             lines.append('c18.anf %s %s' % (cs, ser))
             at['haz'] = len(lines)
             lines.append('c18.hazards %s %s' % (cs, ser))
+            at['frag'] = len(lines)
+            lines.append('c18.frag %s %s' % (cs, ser))
             at['exec'] = len(lines)
             for a in G.INPUTS:
                 lines.append('c18.exec %s %s' % (ser, args_sexp(a)))
@@ -316,6 +319,12 @@ def check(run, only_cases=None):
             rec['hazards'] = hz
             run.fail('transformed function behaves differently (result / ordered effect log / exception type)', rec, cls)
     run.cov['hazard_free_cases'] = hazfree
+    if answers is not None:
+        infrag = [i for i in range(len(cases)) if answers[idx[i]['frag']] == 'True']
+        bad = [case_record(cases[i]) for i in infrag if hazards_of(i)]
+        run.cov['cases_in_proved_fragment'] = len(infrag)
+        run.cov['cases_in_proved_fragment_with_temporaries'] = len([i for i in infrag if results[i].get('ntemps', 0) > 0])
+        run.oblige('model:proved-fragment-has-no-hazard-class', 'correspondence', not bad, json.dumps(bad[:2]) if bad else '')
     run.cov['hazard_classes_seen'] = dict(hazcount)
 
     # ---------------- 2. correspondence model <-> real transformer ----------------
